@@ -12,7 +12,7 @@ from ..worlds import store
 ID = "C09"
 LEVEL = "exploration"
 CHUNK = 60
-BUDGET = {"quick": {"runs": 4000, "wall": 120}, "thorough": {"runs": 300000, "wall": 3000}}
+BUDGET = {"quick": {"runs": 4000, "wall": 120}, "thorough": {"runs": 300000, "wall": 1200}}
 RULE = ("3-6 events drawn from authors{2} x kinds{0,3,10000,19999,30000,39999,1,9999,20000,40000} x "
         "d{absent,bare,'',a,ab,abc,é} x timestamps{T-20,T-10,T-10,T-5} in seeded arrival order "
         "(biased to out-of-order and ties) plus unrelated noise, on SQL-file and LMDB; non-trivial = "
